@@ -4,7 +4,7 @@
 # its existing tests pass with the change. Prints CONFIRMED or the reason it is not.
 set -u
 d=$(realpath $1)
-wt=/tmp/wt_confirm
+wt=${VERIF_WT_CONFIRM:-/tmp/wt_confirm}
 [ -d $wt ] || git -C /repo worktree add -f $wt HEAD -q
 git -C $wt checkout -q -- . && git -C $wt reset -q --hard $(git -C /repo rev-parse HEAD) && git -C $wt clean -fdq
 export GOPROXY=off GOSUMDB=off GOTOOLCHAIN=local
